@@ -218,7 +218,8 @@ GemParts(line) ==                              \* urllib.parse.urlparse(request.
         host == IF lb # 0 /\ rb > lb THEN SubSeq(net, lb + 1, rb - 1) ELSE ""
     IN [path  |-> IF q = 0 THEN nof ELSE SubSeq(nof, 1, q - 1),
         query |-> IF q = 0 THEN "" ELSE SubSeq(nof, q + 1, Len(nof)),
-        bad   |-> ((lb # 0) # (rb # 0)) \/ (lb # 0 /\ rb # 0 /\ host \notin {"::1", "::"})]
+        \* (a "]" before the "[" passes this interpreter's urlsplit unchecked: observed, gemini://::1][::1/x)
+        bad   |-> ((lb # 0) # (rb # 0)) \/ (lb # 0 /\ rb > lb /\ host \notin {"::1", "::"})]
 
 QueryPrefix == "/GEMINI-QUERY"
 IconPrefix == "/PYGOPHERD-HTTPPROTO-ICONS/"
